@@ -1,29 +1,6 @@
 //! Engine L: in-process property-based testing over join_impl (parser + generator), which is
 //! linked by path from the repository, so cargo rebuilds it whenever /repo changed.
-mod c14;
-mod c15;
-mod c20;
-mod dsl;
-mod evid;
-mod synt;
-
-use proptest::test_runner::{Config, RngAlgorithm, TestRng, TestRunner};
-
-pub fn seed32(seed: u64, salt: u64) -> [u8; 32] {
-    let mut s = [0u8; 32];
-    let mut x = seed ^ salt.wrapping_mul(0x9E37_79B9_7F4A_7C15);
-    for i in 0..4 {
-        x ^= x >> 31;
-        x = x.wrapping_mul(0xBF58_476D_1CE4_E5B9).rotate_left(17).wrapping_add(0x94D0_49BB_1331_11EB + i as u64);
-        s[i * 8..i * 8 + 8].copy_from_slice(&x.to_le_bytes());
-    }
-    s
-}
-
-pub fn new_runner(seed: u64, salt: u64, cases: u32) -> TestRunner {
-    let cfg = Config { cases, failure_persistence: None, max_shrink_iters: 20_000, ..Config::default() };
-    TestRunner::new_with_rng(cfg, TestRng::from_seed(RngAlgorithm::ChaCha, &seed32(seed, salt)))
-}
+use jvl::{c14, c15, c20, synt};
 
 fn usage() -> ! {
     eprintln!("usage: jvl check <C14|C15|C20|C10|C13|C16> [--tier quick|thorough] [--seed N] | jvl replay <file>");
@@ -34,6 +11,9 @@ fn main() {
     let args: Vec<String> = std::env::args().collect();
     if args.len() < 3 {
         usage();
+    }
+    if args[1] == "replay-fuzz" {
+        std::panic::set_hook(Box::new(|_| {}));
     }
     let mut tier = std::env::var("VERIF_TIER").unwrap_or_else(|_| "quick".to_string());
     let mut seed: u64 = std::env::var("VERIF_SEED").ok().and_then(|s| s.parse().ok()).unwrap_or(1);
@@ -64,6 +44,38 @@ fn main() {
             "C10" | "C13" | "C16" => synt::run(&args[2], &tier, seed),
             _ => usage(),
         },
+        "replay-fuzz" => {
+            // a libFuzzer artifact: decode it like the target does and re-judge
+            let data = std::fs::read(&args[2]).expect("artifact");
+            let name = args[2].clone();
+            if name.contains("C14-fuzz") {
+                match jvl::fuzzdec::sprog_from_bytes(&data) {
+                    Some(p) => match jvl::fuzzdec::c14_verdict(&p) {
+                        Some(d) => {
+                            println!("replay: violation reproduced on `{}`: {}", p.render(), d);
+                            1
+                        }
+                        None => {
+                            println!("replay: `{}` parses as written", p.render());
+                            0
+                        }
+                    },
+                    None => 0,
+                }
+            } else {
+                let (text, ci) = jvl::fuzzdec::soup_from_bytes(&data);
+                match jvl::fuzzdec::c15_verdict(&text, ci) {
+                    Some(d) => {
+                        println!("replay: violation reproduced on `{}` (config {}): {}", text, ci, d);
+                        1
+                    }
+                    None => {
+                        println!("replay: `{}` is handled cleanly", text);
+                        0
+                    }
+                }
+            }
+        }
         "replay" => {
             let text = std::fs::read_to_string(&args[2]).expect("replay file");
             let v: serde_json::Value = serde_json::from_str(&text).expect("replay json");
